@@ -164,7 +164,106 @@ def h_extensions(ctx, kind, n):
     ctx.observe("n", len(common))
 
 
+def h_offer_answer(ctx, noffer, nanswer, data, policies=(0, 0)):
+    """Real RTCPeerConnection pair (private event loop, no connectivity awaited): the solver chooses
+    kinds / directions of the offerer's transceivers, what the answerer created beforehand, the
+    bundle policies and a codec preference; the exchange must succeed and mirror the offer."""
+    import asyncio
+
+    from aiortc import RTCConfiguration, RTCPeerConnection
+    from aiortc.rtcconfiguration import RTCBundlePolicy
+    from aiortc.sdp import SessionDescription
+
+    loop = asyncio.new_event_loop()
+    loop.set_exception_handler(lambda *_: None)
+    asyncio.set_event_loop(loop)
+    run = loop.run_until_complete
+    pol = [RTCBundlePolicy.BALANCED, RTCBundlePolicy.MAX_COMPAT, RTCBundlePolicy.MAX_BUNDLE]
+    a = RTCPeerConnection(RTCConfiguration(bundlePolicy=pol[policies[0]]))
+    b = RTCPeerConnection(RTCConfiguration(bundlePolicy=pol[policies[1]]))
+    try:
+        ta = []
+        for i in range(noffer):
+            kind = ctx.choice("a%d_kind" % i, ["audio", "video"])
+            d = ctx.choice("a%d_dir" % i, DIRECTIONS)
+            t = a.addTransceiver(kind, direction=d)
+            if kind == "video" and ctx.choice("a%d_pref" % i, [False, True]):
+                caps = [c for c in pc.RTCRtpSender.getCapabilities("video").codecs if c.mimeType in ("video/H264", "video/rtx")]
+                t.setCodecPreferences(caps)
+            ta.append(t)
+        if data:
+            a.createDataChannel("chat")
+        tb = []
+        for i in range(nanswer):
+            kind = ctx.choice("b%d_kind" % i, ["audio", "video"])
+            d = ctx.choice("b%d_dir" % i, DIRECTIONS)
+            tb.append(b.addTransceiver(kind, direction=d))
+        if noffer == 0 and not data:
+            return
+        offer = run(a.createOffer())
+        run(a.setLocalDescription(offer))
+        run(b.setRemoteDescription(a.localDescription))
+        answer = run(b.createAnswer())
+        run(b.setLocalDescription(answer))
+        run(a.setRemoteDescription(b.localDescription))
+        ctx.reach("negotiated")
+        ctx.check(a.signalingState == "stable" and b.signalingState == "stable", "both-sides-stable")
+        od = SessionDescription.parse(a.localDescription.sdp)
+        ad = SessionDescription.parse(b.localDescription.sdp)
+        ctx.check([(m.kind, m.rtp.muxId) for m in ad.media] == [(m.kind, m.rtp.muxId) for m in od.media], "answer-mirrors-media-sections")
+        ctx.check(len(ad.group) == 1 and ad.group[0].semantic == "BUNDLE" and list(ad.group[0].items) == [m.rtp.muxId for m in ad.media], "answer-bundle-group-lists-its-mids")
+        for om, am in zip(od.media, ad.media):
+            ctx.check(am.dtls is not None and am.dtls.role in ("client", "server"), "answer-has-a-definite-dtls-role")
+            if om.kind == "application":
+                continue
+            # directions
+            sends = lambda d: d in ("sendonly", "sendrecv")  # noqa: E731
+            recvs = lambda d: d in ("recvonly", "sendrecv")  # noqa: E731
+            ctx.check((not sends(am.direction) or recvs(om.direction)) and (not recvs(am.direction) or sends(om.direction)), "answer-direction-compatible-with-offer")
+            # codecs: offered, with the offerer's payload types, RTX only next to its base
+            offered = {c.payloadType: c for c in om.rtp.codecs}
+            sel_pts = []
+            for c in am.rtp.codecs:
+                o = offered.get(c.payloadType)
+                ctx.check(o is not None and o.mimeType.lower() == c.mimeType.lower() and o.clockRate == c.clockRate, "answer-codec-was-offered-with-that-payload-type")
+                if pc.is_rtx(c):
+                    ctx.check(c.parameters.get("apt") in sel_pts, "answer-rtx-only-next-to-its-base")
+                elif o is not None:
+                    for f in c.rtcpFeedback:
+                        ctx.check(f in o.rtcpFeedback, "answer-feedback-was-offered")
+                sel_pts.append(c.payloadType)
+            if om.direction != "inactive" and om.rtp.codecs:
+                ctx.check(len(am.rtp.codecs) >= 1, "answer-selects-at-least-one-codec")
+            oext = {(x.uri, x.id) for x in om.rtp.headerExtensions}
+            for x in am.rtp.headerExtensions:
+                ctx.check((x.uri, x.id) in oext, "answer-header-extension-offered-with-that-id")
+        # current directions complementary
+        for t in a.getTransceivers():
+            peer = [u for u in b.getTransceivers() if u.mid == t.mid]
+            ctx.check(len(peer) == 1, "every-offered-transceiver-has-a-peer")
+            if peer:
+                ctx.check(peer[0].currentDirection == pc.reverse_direction(t.currentDirection), "current-directions-complementary")
+        ctx.observe("mlines", len(ad.media))
+    finally:
+        try:
+            for p in (a, b):
+                loop.run_until_complete(p.close())
+            pend = [t for t in asyncio.all_tasks(loop) if not t.done()]
+            for t in pend:
+                t.cancel()
+            if pend:
+                loop.run_until_complete(asyncio.gather(*pend, return_exceptions=True))
+        except Exception:  # noqa: BLE001
+            pass
+        loop.close()
+        asyncio.set_event_loop(None)
+
+
 ENC = [
+    "aiortc.rtcpeerconnection:RTCPeerConnection.createOffer",
+    "aiortc.rtcpeerconnection:RTCPeerConnection.createAnswer",
+    "aiortc.rtcpeerconnection:RTCPeerConnection.setLocalDescription",
+    "aiortc.rtcpeerconnection:RTCPeerConnection.setRemoteDescription",
     "aiortc.rtcpeerconnection:and_direction",
     "aiortc.rtcpeerconnection:or_direction",
     "aiortc.rtcpeerconnection:reverse_direction",
@@ -182,6 +281,25 @@ OUT = [
 ]
 
 HARNESSES = {
+    "offer-answer": Harness(
+        "offer-answer",
+        h_offer_answer,
+        lambda tier: [
+            {"noffer": no, "nanswer": na, "data": d, "policies": list(p)}
+            for no in ((0, 1, 2) if tier == "quick" else (0, 1, 2, 3))
+            for na in ((0, 1) if tier == "quick" else (0, 1, 2))
+            for d in (False, True)
+            for p in (((0, 0), (2, 1)) if tier == "quick" else [(x, y) for x in range(3) for y in range(3)])
+            if (no or d) and not (tier == "quick" and no == 2 and na == 1 and p != (0, 0))
+        ],
+        style="BMC over configurations (real objects, real event loop)",
+        bounds="offerer with 0..2 (3) transceivers (kind, direction, optional H.264-only preference solver-chosen) and optionally a data channel; answerer with 0..1 (2) transceivers created beforehand; all 3x3 bundle policies; one offer/answer round, no connectivity awaited",
+        encoded=ENC,
+        stubs=["none: real RTCPeerConnection objects; ICE gathers on local interfaces; background connection tasks are cancelled at the end of every path"],
+        outside=OUT,
+        twin="negotiated",
+        opts={"samples": 1, "path_timeout_s": 120},
+    ),
     "directions": Harness("directions", h_directions, lambda tier: [{}], style="RT/DIFF", bounds="all 16 (offer direction, answerer preference) pairs", encoded=ENC, outside=OUT, twin="directions"),
     "codecs": Harness("codecs", h_codecs, lambda tier: [{"n": n} for n in ((1, 2) if tier == "quick" else (1, 2, 3))], style="DIFF", bounds="remote offer of <=2 (quick) / <=3 codecs: mime from {VP8, H264, rtx, unknown, case variant}, clock 90000/8000, payload type and apt symbolic 0..127 (distinct), 7 H.264 fmtp variants incl. invalid and absent profile, every feedback subset of 4; local codecs = the library's video capabilities", encoded=ENC, stubs=STUBS, outside=OUT, twin="codecs-intersected", opts={"samples": 1}),
     "preferences": Harness("preferences", h_preferences, lambda tier: [{"which": w} for w in range(1 << len(CODECS["video"]))], style="DIFF", bounds="every subset of the library's video codec list as preference", encoded=ENC, outside=OUT, twin="preferences-filtered"),
